@@ -100,3 +100,28 @@ Theorem C08_undecryptable_is_error :
   forall sp e, (forall k, sp_key sp = Some k -> k <> en_recipient e) -> sp_extract sp (AEnc e) = Err 7.
 Proof. exact sp_undecryptable_is_error. Qed.
 Print Assumptions C08_undecryptable_is_error.
+
+(* The request OBJECT: when the encryption decision is an error, whatever sequence
+   of MakeAssertionEl / MakeResponse / PostBinding (WriteResponse) calls a caller
+   makes on the request, ignoring the errors, every call is an error and
+   req.AssertionEl and req.ResponseEl stay nil — no clear assertion is parked in
+   the request for a later call to emit. *)
+Theorem C08_error_leaves_request_object_empty :
+  forall x l,
+    enc_decision (sx_cp x) (kds (rt_desc (sx_rt x))) = EncErr ->
+    exists os, run_steps x l st_empty = (st_empty, os) /\ Forall (fun z => z = 1) os
+               /\ List.length os = List.length l.
+Proof. exact steps_enc_error_leave_nothing. Qed.
+Print Assumptions C08_error_leaves_request_object_empty.
+
+Theorem C08_step_monitor_holds_of_model :
+  forall base steps,
+    match c06_route base with
+    | None => True
+    | Some r =>
+        let '(st, os) := run_steps (c08s_ctx base r) (map step_of steps) st_empty in
+        c08s_spec {| s8_base := base; s8_steps := steps; s8_results := os;
+                     s8_ael_set := is_some (st_ael st); s8_resp_set := is_some (st_resp st) |} = true
+    end.
+Proof. exact c08s_spec_of_model. Qed.
+Print Assumptions C08_step_monitor_holds_of_model.
